@@ -240,7 +240,7 @@ def c17_tables(n, seed, procs):
             if l.startswith("class.set") or l.startswith("dump."): continue
             try: impl.run(l)
             except Exception: pass
-            if l.startswith("fn.decl"): fname = l.split()[1]; cls = l.split()[2]
+            if l.startswith("fn.decl") or l.startswith("fn.new"): fname = l.split()[1]; cls = l.split()[2]
         f = impl.o[fname]
         x = next(iter(impl.o[k] for k in impl.o if k.startswith("p")), None)
         pep = impl.pep
@@ -315,6 +315,31 @@ def c17_tables(n, seed, procs):
                 dup = next((n_ for n_ in names if n_ is None or names.count(n_) > 1), None)
                 fails.append(dict(what="class constraint names of %s do not identify the constraint (%r occurs %d times)" % (cls, dup, names.count(dup)), oracle="c17_tables", input=desc, tags=tags + ["c17-names:" + cls]))
         if it < 2: samples.append(dict(cls=cls, samples=len(f.list_of_points), tables={k: list(v.shape) for k, v in f.tables_of_constraints.items() if hasattr(v, "shape")}))
+        if it % 3 == 0:
+            # the name of a class constraint identifies its FUNCTION: two unnamed functions of one model — one built with the
+            # class constructor (documented alternative), one through declare_function, in both orders — sampled at the same
+            # unnamed points must not share a constraint name, and each name must carry the identifier of its own function
+            try:
+                from PEPit import PEP, Point
+                import PEPit.functions as PF_, PEPit.operators as PO_
+                C2 = getattr(PF_, cls, None) or getattr(PO_, cls)
+                kw2 = {k_: getattr(f, k_) for k_ in ("mu", "L", "M", "D", "beta", "rho") if hasattr(f, k_)}
+                if cls != "BlockSmoothConvexFunction":
+                    for order in ("ctor-first", "declared-first"):
+                        pep2 = PEP()
+                        if order == "ctor-first": g1 = C2(**kw2); g2 = pep2.declare_function(C2, **kw2)
+                        else: g1 = pep2.declare_function(C2, **kw2); g2 = C2(**kw2)
+                        xa, xb = Point(), Point()
+                        for g_ in (g1, g2):
+                            g_.oracle(xa); g_.oracle(xb); g_.set_class_constraints()
+                        n1 = [c.get_name() for c in g1.list_of_class_constraints]; n2 = [c.get_name() for c in g2.list_of_class_constraints]
+                        both = set(n1) & set(n2)
+                        if both:
+                            fails.append(dict(what="two functions of one model (%s) share the class constraint name %r: names do not identify the function" % (order, sorted(both)[0]),
+                                              oracle="c17_tables", input=dict(desc, scenario="two unnamed %s, %s" % (cls, order)), tags=tags + ["c17-names:" + cls]))
+                            break
+            except (ZeroDivisionError, AssertionError, ValueError):
+                pass
         if rnd.random() < .5:
             # the tables are read, the model is edited (one more sample), it is solved again with other multipliers and the
             # tables are read again: they must be those of the latest solve, with the latest shape
